@@ -235,7 +235,7 @@ def spawn_env():
         os.environ['PYTHONPATH'] = INJECT_DIR + ':' + pp
 
 
-def run_process(persistent, tgt, plan, rebuild=True, log=None):
+def run_process(persistent, tgt, plan, rebuild=True, log=None, grace=3.0):
     from pyworkers.process import ProcessWorker
     from pyworkers.persistent_process import PersistentProcessWorker
     name = 'inj|' + '|'.join(f'{o}:{a}' for o, a in plan) + (f'|log={log}' if log else '')
@@ -258,7 +258,7 @@ def run_process(persistent, tgt, plan, rebuild=True, log=None):
         if persistent and tgt == 'TReturn':
             w.close()
         # a child that is expected to end gets plenty of time (spawns run in parallel); one that may stay in its target a short grace
-        w._child.join(3.0 if tgt == 'TLoop' else 25)
+        w._child.join(grace if tgt == 'TLoop' else 25)
         if w._child.is_alive():
             return 'OAlive', None
         return classify(w)
@@ -270,7 +270,7 @@ def run_process(persistent, tgt, plan, rebuild=True, log=None):
             pass
 
 
-def run_remote(persistent, tgt, plan, rebuild, addr, log=None):
+def run_remote(persistent, tgt, plan, rebuild, addr, log=None, grace=3.0):
     """one remote worker on the server at [addr]; the plan travels in the worker's name to the backend process the
     server spawns (which loads the tracer through sitecustomize, like every spawned interpreter of this check)"""
     from pyworkers.remote import RemoteWorker
@@ -294,7 +294,7 @@ def run_remote(persistent, tgt, plan, rebuild, addr, log=None):
                 pass
         if persistent and tgt == 'TReturn':
             w.close()
-        w._child.join(3.0 if tgt == 'TLoop' else 25)        # the frontend thread ends when the data connection does
+        w._child.join(grace if tgt == 'TLoop' else 25)        # the frontend thread ends when the data connection does
         if w._child.is_alive():
             return 'OAlive', None
         # the end of the data connection is not yet the death of the worker (the backend process may still be on its
@@ -477,17 +477,17 @@ def remote_sweep(res, tier, single, sk, scratch, record, events_of):
                     for a in acts:
                         if a == 'AKillMidSend' and not (p < len(ev0) and ('Send' in lines.get(ev0[p][1], '') or ev0[p][0] == '_cleanup')):
                             continue
-                        jobs.append((pers, tgt, True, [(p, a)], start))
+                        jobs.append((pers, tgt, True, [(p, a)], start, len(ev0)))
                 if not single and tgt == 'TRaise':
-                    jobs.append((pers, tgt, False, [], start))
+                    jobs.append((pers, tgt, False, [], start, len(ev0)))
                     if tier == 'quick':
-                        jobs.append((pers, 'TRaiseBase', True, [], start))      # a target ending with a BaseException (corpus: fixed defect)
+                        jobs.append((pers, 'TRaiseBase', True, [], start, len(ev0)))      # a target ending with a BaseException (corpus: fixed defect)
         with concurrent.futures.ThreadPoolExecutor(max_workers=9) as ex:
             futs = [(j, ex.submit(run_remote, j[0], j[1], j[3], j[2], servers[i % len(servers)].addr)) for i, j in enumerate(jobs)]
-            for i, ((pers, tgt, rb, plan, start), fu) in enumerate(futs):
+            for i, ((pers, tgt, rb, plan, start, nev), fu) in enumerate(futs):
                 ob, why = fu.result()
-                if ob == 'OAlive' and tgt != 'TLoop':
-                    ob, why = run_remote(pers, tgt, plan, rb, servers[i % len(servers)].addr)
+                if ob == 'OAlive' and (tgt != 'TLoop' or (plan and plan[0][0] < nev)):
+                    ob, why = run_remote(pers, tgt, plan, rb, servers[i % len(servers)].addr, grace=10.0)
                 record('remote', pers, tgt, rb, plan, [(o - start, a) for o, a in plan], ob, why)
         if not single:
             slow_outcome_probe(res, servers[0].addr)
@@ -608,13 +608,16 @@ def main(tier, seed, replay=None, prop=PROP):
         futs = [(j, ex.submit(run_process, j[0], j[1], j[3], j[2])) for j in jobs]
         for (pers, tgt, rb, plan, ev0), fu in futs:
             ob, why = fu.result()
-            if ob == 'OAlive' and tgt != 'TLoop':
-                # a child that must end was still there after 25 s: once is an infrastructure hiccup (interpreter
-                # finalisation with a daemon thread), twice is a finding
-                ob, why = run_process(pers, tgt, plan, rb)
+            if ob == 'OAlive' and (tgt != 'TLoop' or (plan and plan[0][0] < len(ev0))):
+                # a child that must end was still there after 25 s (or, for a looping target, a landing point the dry run
+                # did reach was not reached within the short grace on a loaded machine): once is an infrastructure
+                # hiccup, twice is a finding
+                ob, why = run_process(pers, tgt, plan, rb, grace=10.0)
             record('process', pers, tgt, rb, plan, to_model(plan, ev0, tgt, call_lines_proc), ob, why)
+    res.notes.append(f'process sweep done at {time.time() - res.t0:.0f}s')
     # ---- remote kinds: the backend process the server spawns runs RemoteWorker._run_backend under the same tracer
     remote_sweep(res, tier, single, sk, scratch, record, events_of)
+    res.notes.append(f'remote sweep done at {time.time() - res.t0:.0f}s')
     import shutil
     shutil.rmtree(scratch, ignore_errors=True)
     if single:
